@@ -9,7 +9,7 @@
   Every clause is read permissively (it never demands more than properties.jsonl states); where a clause
   judges the reaction to one inbound message it only judges *clean* messages with a single defect.
 -/
-import Qfx.Model.Session
+import Qfx.Spec.SessionTyped
 namespace Qfx.SessSpec
 open Qfx Qfx.Sess
 
@@ -117,6 +117,7 @@ structure M where
   S : Int := 1
   last : Option Int := none          -- last delivered number in this epoch
   expectInc : Bool := false
+  g1 : G1 := G1.init 1                -- the typed C01 monitor of the theorems (Spec/SessionTyped.lean), run on the same items
   -- C08
   connOpen : Bool := false
   wiresOnConn : Nat := 0
@@ -142,6 +143,23 @@ def inboundOf (ms : M) : Op → Option InMsg
   | .msgIn m => some m
   | .pop => ms.inbox.head?
   | _ => none
+
+/-- an observed item as the model's typed observation (what the theorems' monitors consume) -/
+def toObs : Item → Option Obs
+  | .wire k sq f => some (.wire { kind := k, seq := (numeric? sq).getD 0, f := f })
+  | .fromApp sq t => some (.fromApp sq t)
+  | .fromAdmin k sq => some (.fromAdmin k sq)
+  | .onLogon => some .onLogon
+  | .onLogout => some .onLogout
+  | .armPeer ms => some (.armPeer ms)
+  | .closed => some .closed
+  | .store ["reset"] => some .reset
+  | .store ["incT"] => some .incT
+  | .store ["incS"] => some .incS
+  | .store ["refresh"] => some .refresh
+  | .store ["setT", n] => n.toInt?.map Obs.setT
+  | .store ["save", n, k, r] => n.toInt?.map fun n => Obs.saved n k (r == "y")
+  | .store _ => none
 
 /-! ## C01: in order, exactly once, at the expected number, advance by one -/
 
@@ -544,7 +562,7 @@ def storedAfter (ms : M) (e : Event) : List (Int × String × Bool × Option Str
 def monitorStep (ms : M) (e : Event) : M × List String :=
   match e.op with
   | .cfg c s0 t0 =>
-    ({ cfg := c, started := true, prev := e.after, T := t0, S := s0, hb := if c.initiator || c.hbOverride then c.hb else 0 }, [])
+    ({ cfg := c, started := true, prev := e.after, T := t0, S := s0, g1 := G1.init t0, hb := if c.initiator || c.hbOverride then c.hb else 0 }, [])
   | _ =>
     let panic := if e.after.status == "panic" then ["C09.panic{op=" ++ opName e.op ++ "}"] else []
     if e.after.status == "panic" then (ms, panic) else
@@ -555,6 +573,9 @@ def monitorStep (ms : M) (e : Event) : M × List String :=
     -- the clauses that attribute a reaction to the event's own inbound message do not judge such events
     let drained := ms.prev.ib > 0 && e.after.ib == 0 && !(match e.op with | .pop => ms.prev.ib == 1 | _ => false)
     let (b01, t', last') := c01 ms e
+    -- the theorem's own predicate (C01_inorder_exactly_once) on the implementation's observations
+    let g1' := (e.items.filterMap toObs).foldl g1Step ms.g1
+    let b01 := b01 ++ (if ms.g1.ok && !(g1'.ok && !g1'.expectInc) && b01.isEmpty then ["C01.theorem_monitor_rejects"] else [])
     let b04 := if drained then [] else c04 ms e
     let b06 := if drained then [] else c06 ms e
     let b07 := if drained then [] else c07 ms e
@@ -574,7 +595,7 @@ def monitorStep (ms : M) (e : Event) : M × List String :=
       | _ => ms.inbox
     let inbox' := if e.after.ib == 0 then [] else inbox'
     let ms' : M := { ms with
-      prev := e.after, T := t', S := e.after.S, last := last', expectInc := false,
+      prev := e.after, T := t', S := e.after.S, last := last', expectInc := false, g1 := g1',
       connOpen := s08.connOpen, wiresOnConn := s08.wiresOnConn, sentLogout := s08.sentLogout, handshake := s08.handshake,
       cbLoggedOn := s08.cbLoggedOn, afterLogoutCb := s08.afterLogoutCb,
       fromLogonGap := if ms.prev.st == "Logon" && inRecovery e.after.st then true
